@@ -435,6 +435,19 @@ func runSQLite(args []string) {
 		case strings.HasPrefix(form, "bulk"):
 			insErr = db.Query(ctx, stmt, argsI(rowsV.Interface())...).Run()
 		default:
+			if cr.Chance(1, 2) {
+				// every Query is built first, then they are run in order: each still carries the
+				// row it was built with
+				var qs []*sqlair.Query
+				for k := 0; k < nrows; k++ {
+					qs = append(qs, db.Query(ctx, stmt, argsI(rowsV.Index(k).Interface())...))
+				}
+				for k := 0; k < nrows && insErr == nil; k++ {
+					insErr = qs[k].Run()
+				}
+				dist["queries-built-before-run"]++
+				break
+			}
 			for k := 0; k < nrows && insErr == nil; k++ {
 				insErr = db.Query(ctx, stmt, argsI(rowsV.Index(k).Interface())...).Run()
 			}
